@@ -5,6 +5,9 @@ renamefuzz.py, for statement shapes instead of names). MIR-based rules see the o
   named_tail    `{ ..; E }`                    ->  `{ ..; let __ret = E; __ret }`           (function bodies)
   early_return  `{ ..; if c { A } else { B } }` ->  `{ ..; if c { return A; } B }`            (function bodies, repeated)
   bind_cond     `if c { .. }`                  ->  `let __c = c; if __c { .. }`             (statement / tail position)
+  negate_if     `if c { A } else { B }`        ->  `if !c { B } else { A }`
+  reverse_arms  arms with distinct variant patterns, no guards, no catch-all: reversed
+  hoist_args    `f(g(a), b);`                  ->  `let __a = g(a); f(__a, b);`             (calls in statement position)
 """
 import itertools
 
@@ -90,7 +93,7 @@ def _walk_blocks(n):
         if isinstance(x, dict):
             if x.get("k") == "Block":
                 yield x
-            st.extend(x.values())
+            st.extend(v for k_, v in x.items() if k_ != "_init")
         elif isinstance(x, list):
             st.extend(x)
 
@@ -134,10 +137,154 @@ def _has_let(n):
                 return True
             if x.get("k") == "Closure":
                 continue
-            st.extend(x.values())
+            st.extend(v for k_, v in x.items() if k_ != "_init")
         elif isinstance(x, list):
             st.extend(x)
     return False
 
 
-MODES = {"named_tail": named_tail, "early_return": early_return, "bind_cond": bind_cond}
+def _walk_nodes(n):
+    st = [n]
+    while st:
+        x = st.pop()
+        if isinstance(x, dict):
+            yield x
+            st.extend(v for k_, v in x.items() if k_ != "_init")
+        elif isinstance(x, list):
+            st.extend(x)
+
+
+def negate_if(raw):
+    """`if c { A } else { B }`  ->  `if !c { B } else { A }`  (conditions that are not `let` chains)"""
+    n = 0
+    for crate in raw.values():
+        for h in crate["hir"]:
+            if "body" not in h:
+                continue
+            for x in list(_walk_nodes(h["body"])):
+                if x.get("k") != "If" or "else" not in x or x.get("x"):
+                    continue
+                c = _strip_block(x["cond"])
+                if _has_let(c) or c.get("ty") != "bool":
+                    continue
+                els = x["else"]
+                if not (isinstance(els, dict) and els.get("k") == "Block"):
+                    continue        # `else if`: keep chains as they are
+                x["cond"] = {"k": "Unary", "op": "Not", "e": x["cond"], "ty": "bool", "sp": c.get("sp", "")}
+                x["then"], x["else"] = els, x["then"]
+                n += 1
+    return raw, n
+
+
+def _variant_head(p):
+    k = p.get("k")
+    if k in ("PRef", "PBox", "PDeref"):
+        return _variant_head(p["pat"])
+    if k in ("PTupleStruct", "PStruct"):
+        return p.get("res", {}).get("path")
+    if k == "PExpr" and p["e"].get("k") == "PEPath":
+        return p["e"].get("res", {}).get("path")
+    return None
+
+
+def reverse_arms(raw):
+    """arms of a user-written match whose patterns are distinct enum variants (no guards, no catch-all) are reversed"""
+    n = 0
+    for crate in raw.values():
+        for h in crate["hir"]:
+            if "body" not in h:
+                continue
+            for x in _walk_nodes(h["body"]):
+                if x.get("k") != "Match" or x.get("src") != "Normal" or x.get("x") or len(x.get("arms", [])) < 2:
+                    continue
+                heads = [_variant_head(a["pat"]) for a in x["arms"]]
+                if any(hd is None for hd in heads) or len(set(heads)) != len(heads) or any("guard" in a for a in x["arms"]):
+                    continue
+                x["arms"] = list(reversed(x["arms"]))
+                n += 1
+    return raw, n
+
+
+def _trivial(e):
+    e = _strip_block(e)
+    k = e.get("k")
+    if k in ("Path", "Lit", "Closure"):
+        return True
+    if k in ("AddrOf", "Field", "Unary", "Cast") and "e" in e:
+        return _trivial(e["e"])
+    return False
+
+
+def _call_in(e):
+    """the call evaluated by a statement expression: the expression itself, or the operand of `?`"""
+    e = _strip_block(e) if isinstance(e, dict) else None
+    if e and e.get("k") == "Match" and str(e.get("src", "")).startswith("TryDesugar"):
+        sc = e.get("scrut", {})
+        if sc.get("k") == "Call" and sc.get("args"):
+            return _call_in(sc["args"][0])
+        return None
+    if e and e.get("k") in ("Call", "MethodCall") and not e.get("x") and not str(e.get("callee_kind", "")).startswith("Ctor"):
+        return e
+    return None
+
+
+def _named(out, a, prefix):
+    nm, id_ = "__" + prefix, _fresh("fz" + prefix)
+    out.append(_let(nm, id_, a.get("ty"), a, a.get("sp", "")))
+    loc = _local(nm, id_, a.get("ty"), a.get("sp", ""))
+    inner = a
+    for key in ("adj", "aty"):
+        if key in inner:
+            loc[key] = inner.pop(key)
+    return loc
+
+
+def hoist_args(raw):
+    """`let x = r.m(g(a), b)?;` / `f(g(a), b);` / a block's tail call  ->  `let __a = g(a); .. f(__a, b)`: the receiver (when
+    it is itself a call) and every non-trivial argument are named, in evaluation order"""
+    n = 0
+    for crate in raw.values():
+        for h in crate["hir"]:
+            if "body" not in h:
+                continue
+            for b in list(_walk_blocks(h["body"])):
+                out = []
+
+                def treat(e):
+                    nonlocal n
+                    c = _call_in(e)
+                    if c is None:
+                        return
+                    parts = ([("recv", c["recv"])] if c["k"] == "MethodCall" else []) + [("arg", a) for a in c.get("args", [])]
+                    if not all(isinstance(a, dict) and a.get("ty") not in (None, "!") and not _has_let(a) for _, a in parts):
+                        return
+                    if c["k"] == "MethodCall" and not _trivial(c["recv"]) and _strip_block(c["recv"]).get("k") not in ("Call", "MethodCall"):
+                        return
+                    if not any(not _trivial(a) for _, a in parts):
+                        return
+                    new_args = []
+                    for kind, a in parts:
+                        if _trivial(a):
+                            loc = a
+                        else:
+                            loc = _named(out, a, "r" if kind == "recv" else "a")
+                            n += 1
+                        if kind == "recv":
+                            c["recv"] = loc
+                        else:
+                            new_args.append(loc)
+                    c["args"] = new_args
+                for st in b.get("stmts", []):
+                    if st.get("k") in ("SSemi", "SExpr"):
+                        treat(st.get("e"))
+                    elif st.get("k") == "SLet" and "els" not in st:
+                        treat(st.get("init"))
+                    out.append(st)
+                if isinstance(b.get("expr"), dict):
+                    treat(b["expr"])
+                b["stmts"] = out
+    return raw, n
+
+
+MODES = {"named_tail": named_tail, "early_return": early_return, "bind_cond": bind_cond,
+         "negate_if": negate_if, "reverse_arms": reverse_arms, "hoist_args": hoist_args}
